@@ -2,13 +2,17 @@
 pub type PointD = Point{D};
 pub type VectorD = Vector{D};
 
-// Stand-in for engeom's SurfacePoint<D> as used by Ramer-Douglas-Peucker: a base point and a direction; `projection`
-// is the foot of the perpendicular on the line through `point` with direction `normal`.  The projection itself is kept
-// UNINTERPRETED (`line_proj`): C05 speaks about "the code's own projection distance" (SurfacePoint is covered by C03).
+// Stand-in for engeom's SurfacePoint<D> as used by Ramer-Douglas-Peucker: a base point and a direction (kept
+// un-normalised here; `u = dir/|dir|` is the unit normal engeom stores).  engeom's own definitions (surface_point.rs,
+// covered by C03) are mirrored as ASSUMED contracts in terms of the inner-product space of prelude/euclid.rs:
+//   scalar_projection(p) = u . (p - base)        at_distance(t) = base + u*t        projection(p) = at_distance(scalar_projection(p))
 // Normalising the zero vector is undefined (NaN in IEEE arithmetic, which the real-number model does not have), hence
 // the precondition on new_normalize.
 pub struct SurfacePoint { pub point: Point{D}, pub normal: Vector{D} }
-pub uninterp spec fn line_proj(base: Point{D}, dir: Vector{D}, p: Point{D}) -> Point{D};
+pub open spec fn line_param(base: Point{D}, dir: Vector{D}, p: Point{D}) -> real { v_dot(u_vec(v_unit(dir)), p_sub(p, base)) }
+pub open spec fn line_point(base: Point{D}, dir: Vector{D}, t: real) -> Point{D} { p_add(base, v_scale(u_vec(v_unit(dir)), t)) }
+pub open spec fn line_proj(base: Point{D}, dir: Vector{D}, p: Point{D}) -> Point{D} { line_point(base, dir, line_param(base, dir, p)) }
+pub open spec fn clampr(x: real, lo: real, hi: real) -> real { if x < lo { lo } else if x > hi { hi } else { x } }
 impl SurfacePoint {
     #[verifier::external_body]
     pub fn new_normalize(point: Point{D}, normal: Vector{D}) -> (r: SurfacePoint)
@@ -19,7 +23,19 @@ impl SurfacePoint {
     pub fn projection(&self, other: &Point{D}) -> (r: Point{D})
         ensures r == line_proj(self.point, self.normal, *other)
     { unimplemented!() }
+    #[verifier::external_body]
+    pub fn scalar_projection(&self, other: &Point{D}) -> (r: f64)
+        ensures rv(r) == line_param(self.point, self.normal, *other)
+    { unimplemented!() }
+    #[verifier::external_body]
+    pub fn at_distance(&self, distance: f64) -> (r: Point{D})
+        ensures r == line_point(self.point, self.normal, rv(distance))
+    { unimplemented!() }
 }
+// std f64::clamp (assumed contract, real-number meaning; std panics when min > max)
+pub assume_specification [f64::clamp] (x: f64, min: f64, max: f64) -> (r: f64)
+    requires rv(min) <= rv(max)
+    ensures rv(r) == clampr(rv(x), rv(min), rv(max));
 
 // R8 target: `X.iter().map(|_| false).collect()`  (assumed std contract: one `false` per element)
 #[verifier::external_body]
